@@ -1,0 +1,51 @@
+// SPDX-License-Identifier: LGPL-2.1-or-later
+#ifndef _URCU_VERIF_HOOKS_H
+#define _URCU_VERIF_HOOKS_H
+
+/*
+ * Verification hooks. Compiled in only with -DURCU_VERIF (never by the
+ * regular build). With the guard off every hook expands to nothing.
+ */
+
+#ifdef URCU_VERIF
+
+#ifdef __cplusplus
+extern "C" {
+#endif
+
+enum urcu_verif_rmw_kind {
+	URCU_VERIF_CMPXCHG, URCU_VERIF_XCHG, URCU_VERIF_ADD_RETURN,
+	URCU_VERIF_AND, URCU_VERIF_OR, URCU_VERIF_ADD,
+	URCU_VERIF_INC, URCU_VERIF_DEC,
+};
+
+enum urcu_verif_knob_id {
+	URCU_VERIF_KNOB_QS_ACTIVE_ATTEMPTS,
+	URCU_VERIF_KNOB_WAIT_ATTEMPTS,
+	URCU_VERIF_KNOB_DEFER_QUEUE_SIZE,
+	URCU_VERIF_KNOB_COUNT_COMMIT_ORDER,
+	URCU_VERIF_KNOB_MIN_PARTITION_ORDER,
+	URCU_VERIF_KNOB_BP_INIT_READER_COUNT,
+	URCU_VERIF_KNOB_NR,
+};
+
+/* Called right before an atomic read-modify-write instruction executes. */
+extern void urcu_verif_rmw(void *addr, int len, int kind);
+/* Called right before a full memory fence instruction executes. */
+extern void urcu_verif_mb(void);
+/* Replaces the busy-wait pause instruction. */
+extern void urcu_verif_cpu_relax(void);
+/* Value to use for a tuning constant whose default is @dflt. */
+extern unsigned long urcu_verif_knob(int knob, unsigned long dflt);
+
+#ifdef __cplusplus
+}
+#endif
+
+#else /* URCU_VERIF */
+
+#define urcu_verif_rmw(addr, len, kind)	do { } while (0)
+
+#endif /* URCU_VERIF */
+
+#endif /* _URCU_VERIF_HOOKS_H */
